@@ -37,6 +37,10 @@ pub struct Case {
     /// accepts the `away` commands: what it logs afterwards has to be found by the incremental synchronisation, too
     #[serde(default)]
     pub primary_restarts: bool,
+    /// the restart of the primary is a kill (no snapshot at shutdown; an op-log whose flag is invalid is discarded at
+    /// the start, together with the keys map): the joiner is compared with what the primary holds afterwards
+    #[serde(default)]
+    pub primary_killed: bool,
     /// at the end of the away phase database d1/d2 (created with the arbiter strategy now if it does not exist) gets a
     /// conflict on key c that an arbiter client resolves: the resolved value is a write like any other
     #[serde(default)]
@@ -67,7 +71,8 @@ pub fn case_strategy() -> impl Strategy<Value = Case> {
         prop::bool::weighted(0.3),
         prop_oneof![3 => Just(None), 1 => (1..3usize).prop_map(Some)],
     )
-        .prop_map(|(before, away, during, leave, disk, joiner_snapshots, schedule, primary_restarts, resolved_conflict_while_away)| Case { before, away, during, leave: leave.to_string(), disk: disk.to_string(), joiner_snapshots, schedule, primary_restarts, resolved_conflict_while_away })
+        .prop_map(|(before, away, during, leave, disk, joiner_snapshots, schedule, primary_restarts, resolved_conflict_while_away)| Case { before, away, during, leave: leave.to_string(), disk: disk.to_string(), joiner_snapshots, schedule, primary_restarts, primary_killed: false, resolved_conflict_while_away })
+        .prop_flat_map(|c| prop::bool::weighted(0.4).prop_map(move |k| Case { primary_killed: k && c.primary_restarts, ..c.clone() }))
 }
 
 fn dbname(i: usize) -> String {
@@ -179,7 +184,9 @@ pub fn run_case(ctx: &Ctx, case: &Case) -> Outcome {
         }
     }
     if fail.is_none() && case.primary_restarts {
-        c.nodes[0].node.as_ref().unwrap().shutdown();
+        if !case.primary_killed {
+            c.nodes[0].node.as_ref().unwrap().shutdown();
+        }
         c.kill(0);
         c.boot(0);
         settle(&mut c, "after the restart of the primary", &mut fail);
@@ -568,14 +575,14 @@ fn away_scripts(max_len: usize) -> Vec<Case> {
                 i /= n;
             }
             for leave in ["clean", "kill"] {
-                out.push(Case { before: vec![Cmd::Snapshot { db: 0 }], away: away.clone(), during: vec![], leave: leave.to_string(), disk: "kept".to_string(), joiner_snapshots: true, schedule: vec![], primary_restarts: false, resolved_conflict_while_away: None });
+                out.push(Case { before: vec![Cmd::Snapshot { db: 0 }], away: away.clone(), during: vec![], leave: leave.to_string(), disk: "kept".to_string(), joiner_snapshots: true, schedule: vec![], primary_restarts: false, primary_killed: false, resolved_conflict_while_away: None });
                 if len <= 2 {
-                    out.push(Case { before: vec![Cmd::Snapshot { db: 0 }], away: away.clone(), during: vec![], leave: leave.to_string(), disk: "kept".to_string(), joiner_snapshots: true, schedule: vec![], primary_restarts: true, resolved_conflict_while_away: None });
+                    out.push(Case { before: vec![Cmd::Snapshot { db: 0 }], away: away.clone(), during: vec![], leave: leave.to_string(), disk: "kept".to_string(), joiner_snapshots: true, schedule: vec![], primary_restarts: true, primary_killed: false, resolved_conflict_while_away: None });
                 }
                 if len == 1 {
                     // an arbiter database that exists (and is on both disks) before the joiner leaves; while it is away a
                     // conflict on one of its keys is resolved
-                    out.push(Case { before: vec![Cmd::CreateDb { db: 2, strategy: "arbiter".into() }, Cmd::Set { db: 2, k: "a".into(), v: "x".into() }, Cmd::Snapshot { db: 2 }, Cmd::Snapshot { db: 0 }], away: away.clone(), during: vec![], leave: leave.to_string(), disk: "kept".to_string(), joiner_snapshots: true, schedule: vec![], primary_restarts: false, resolved_conflict_while_away: Some(2) });
+                    out.push(Case { before: vec![Cmd::CreateDb { db: 2, strategy: "arbiter".into() }, Cmd::Set { db: 2, k: "a".into(), v: "x".into() }, Cmd::Snapshot { db: 2 }, Cmd::Snapshot { db: 0 }], away: away.clone(), during: vec![], leave: leave.to_string(), disk: "kept".to_string(), joiner_snapshots: true, schedule: vec![], primary_restarts: false, primary_killed: false, resolved_conflict_while_away: Some(2) });
                 }
             }
         }
